@@ -4,5 +4,8 @@ From Coq Require Import List NArith ZArith Bool.
 From VF Require Import Base.Sx Tftp.Transfer Tftp.Run Tftp.Monitor Tftp.Entries.
 Import ListNotations.
 Definition holds (c : tcase) (l : list tr) : list string :=
-  filter (has_tag ["C01:"%string]) (monitor c l).
+  (* besides wrong data: aborting or stalling a transfer although the peer only lost, duplicated,
+     delayed or reordered packets also means that the bytes are not delivered *)
+  filter (has_tag ["C01:"; "C09:unexpected_error_packet"; "C02:retransmission"; "C02:ends_while_waiting"]%string)
+         (monitor c l).
 Definition entry := tftp_entry holds proj_client_packets.
